@@ -76,7 +76,8 @@ Proof. cbn. repeat split; [discriminate | lia | numR; lra]. Qed.
     this file is about the code that is in /repo, not only about a hand model that agrees with it on the sampled cases.
     NOT proved (still only decided by the correspondence): that NumPy/SciPy's cumsum, cumulative_trapezoid, abs, slicing
     and in-place semantics are the list primitives of lib/NpList.v (the translator's reading of each whitelisted call),
-    binary64 rounding, and the object layer (AccSignal.velocity/.displacement/.pga/.pgv/.pgd caching and dispatch). *)
+    binary64 rounding.  The object layer (AccSignal.velocity/.displacement/.pga/.pgv/.pgd) has its own tie at the end of
+    this file (gen/Gen_c08_obj.v); the memo dictionary of the peaks is property C04's subject. *)
 From EQ Require Import gen.Gen_quadrature proofs.P_gen_quadrature.
 
 Theorem C08_model_is_source : forall (T : Type) (ops : NumOps T) (trap : bool) (dt : T) (a : list T),
@@ -89,3 +90,59 @@ Theorem C08_peak_is_source : forall (T : Type) (ops : NumOps T) (m : list T), ge
 Proof. exact (@P_gen_quadrature.gen_calc_peak_eq). Qed.
 Theorem C08_default_trap_is_source : gen_velo_disp_default_trap = true /\ gen_velo_disp_alias_default_trap = true.
 Proof. exact P_gen_quadrature.gen_default_trap. Qed.
+
+(** *** The object layer is the source (translator/py2coq_objlayer.py -> gen/Gen_c08_obj.v, proofs in P_gen_c08_obj).
+    Every run re-translates eqsig/single.py: AccSignal.generate_displacement_and_velocity_series, the lazy getters
+    velocity / displacement and the getters pga / pgv / pgd by symbolic execution over the record [obj] of the fields they
+    touch (values, dt, _velocity, _displacement, _cached_disp_and_velo), inlining properties and methods along the MRO.
+    VD = displacements.calc_velo_and_disp_from_accel_arr(acc, dt, trap) and PK = im.calc_peak(motion) are parameters: their
+    tie is C08_model_is_source / C08_peak_is_source above.  PROVED for every [NumOps] instance and ALL inputs: the
+    integration step hands (values, dt, trap) to VD and stores its pair as (_velocity, _displacement) in this order and sets
+    the flag; velocity / displacement integrate (trap=True, the default of the signature) only when the flag is clear and
+    return the stored first / second series; pga is PK(values), pgv is PK(velocity), pgd is PK(displacement), each through the
+    lazy getter; with the model as VD and PK these are exactly the three numbers of K_C08.model_out.  The memo shape
+    `if "<k>" in self._cached_params: return self._cached_params["<k>"] else: x = e; self._cached_params["<k>"] = x;
+    return x` is matched syntactically (same key three times; the key is emitted) and only `e` is translated: what the
+    dictionary does over time is property C04.  A changed array / argument order / storage order / key / default changes
+    the generated text and breaks one of these theorems; renamed temporaries give the same text. *)
+From Coq Require Import String.
+From Coq Require Import List.   (* after String: [length] is List.length *)
+From EQ Require Import lib.PyRes gen.Gen_c08_obj proofs.P_gen_c08_obj.
+
+Theorem C08_object_integration_is_source : forall (T : Type) (ops : NumOps T) (VD : list T -> T -> bool -> list T * list T)
+    (trap : bool) (st : @obj T),
+  gen_generate_dv VD trap st
+  = PyOk (mk_obj (o_values st) (o_dt st) (fst (VD (o_values st) (o_dt st) trap)) (snd (VD (o_values st) (o_dt st) trap)) true).
+Proof. intros. apply P_gen_c08_obj.gen_generate_dv_eq. Qed.
+Theorem C08_lazy_series_are_source : forall (T : Type) (ops : NumOps T) (VD : list T -> T -> bool -> list T * list T) (st : @obj T),
+  let st' := if o_cached_dv st then st
+             else mk_obj (o_values st) (o_dt st) (fst (VD (o_values st) (o_dt st) true)) (snd (VD (o_values st) (o_dt st) true)) true in
+  gen_velocity VD st = PyOk (st', o_velocity st') /\ gen_displacement VD st = PyOk (st', o_displacement st').
+Proof. intros T ops VD st. split; [apply P_gen_c08_obj.gen_velocity_eq | apply P_gen_c08_obj.gen_displacement_eq]. Qed.
+Theorem C08_object_peaks_are_source : forall (T : Type) (ops : NumOps T) (VD : list T -> T -> bool -> list T * list T)
+    (PK : list T -> T) (st : @obj T),
+  let st' := if o_cached_dv st then st
+             else mk_obj (o_values st) (o_dt st) (fst (VD (o_values st) (o_dt st) true)) (snd (VD (o_values st) (o_dt st) true)) true in
+  gen_pga PK st = PyOk (st, PK (o_values st)) /\
+  gen_pgv VD PK st = PyOk (st', PK (o_velocity st')) /\ gen_pgd VD PK st = PyOk (st', PK (o_displacement st')).
+Proof.
+  intros T ops VD PK st. split; [apply P_gen_c08_obj.gen_pga_eq|].
+  split; [apply P_gen_c08_obj.gen_pgv_eq | apply P_gen_c08_obj.gen_pgd_eq].
+Qed.
+(** with the model of displacements.py / im.calc_peak: the quantities the correspondence of this check compares *)
+Theorem C08_object_peaks_are_model : forall (T : Type) (ops : NumOps T) (a v d : list T) (dt : T),
+  let fresh := mk_obj a dt v d false in
+  let cached := mk_obj a dt v d true in
+  res_value (gen_pga calc_peak fresh) = Some (fresh, calc_peak a) /\
+  option_map snd (res_value (gen_pgv VDm calc_peak fresh)) = Some (calc_peak (fst (velo_disp true dt a))) /\
+  option_map snd (res_value (gen_pgd VDm calc_peak fresh)) = Some (calc_peak (snd (velo_disp true dt a))) /\
+  option_map snd (res_value (gen_velocity VDm fresh)) = Some (fst (velo_disp true dt a)) /\
+  option_map snd (res_value (gen_displacement VDm fresh)) = Some (snd (velo_disp true dt a)) /\
+  option_map snd (res_value (gen_pgv VDm calc_peak cached)) = Some (calc_peak v) /\
+  option_map snd (res_value (gen_pgd VDm calc_peak cached)) = Some (calc_peak d) /\
+  res_value (gen_generate_dv VDm false fresh) = Some (mk_obj a dt (fst (velo_disp false dt a)) (snd (velo_disp false dt a)) true).
+Proof. intros. apply P_gen_c08_obj.peaks_are_model. Qed.
+Theorem C08_object_constants_are_source :
+  gen_generate_dv_default_trap = true /\ gen_pga_memo_key = "pga"%string /\ gen_pgv_memo_key = "pgv"%string /\
+  gen_pgd_memo_key = "pgd"%string.
+Proof. exact P_gen_c08_obj.gen_c08_obj_constants. Qed.
